@@ -120,6 +120,10 @@ def main():
                 r["cls"] = type(y).__name__
                 r.update(stats(y, ref, absref))
                 r["K"] = m
+                if isinstance(qa, QTensor) and isinstance(qb, QTensor):
+                    # the product of the two scales as formed in the tensor dtype
+                    r["scale_prod_min"] = float(qa._scale.double().abs().min() * qb._scale.double().abs().min())
+                    r["act_quantized"] = True
             r["ok"] = True
         except Exception as ex:  # noqa: BLE001
             import traceback
